@@ -35,6 +35,9 @@ def c14_predicate(c, o, j):
                                     'weekday': (r[1].upper() if r[0] == 'weekly' else 'MON')}))
     except Exception:
         pass
+    if cfg.get('sched_thin'):
+        # the session's public rebalance_schedule was replaced (every other instant kept) before run()
+        sched = set(sorted(sched)[::2])
     want = [t for t in times if t in sched and (burn is None or t >= burn)]
     if o['pcm_times'] != upto_err(want):
         F.append('portfolio construction ran at %s..., scheduled instants not before burn-in are %s...' % (o['pcm_times'][:4], upto_err(want)[:4]))
@@ -117,6 +120,9 @@ class C14(Prop):
         out = []
         for i in range(n):
             c = sl.gen_timed_session(rng, tier) if rng.random() < 0.15 else sl.gen_session(rng, tier)
+            if rng.random() < 0.12 and c['cfg']['rebal'][0] in ('daily', 'weekly'):
+                c['cfg']['sched_thin'] = True         # (the session model has no such option: judged by the predicate alone)
+                c['stream'] += ':schedule-replaced'
             if rng.random() < 0.5 and c['cfg'].get('burn') is None:
                 closes = [t for t, k in sl.event_times(c['cfg']['start'], c['cfg']['end']) if k == 'market_close']
                 if closes:
